@@ -21,7 +21,7 @@ DefaultCx == [native |-> {}, omit_none |-> "unset", by_alias |-> "unset", dlct |
               nocopy |-> {}]        \* no_copy_collections in effect: subset of {"list", "dict", "set"} (C18)
 
 \* ---- customisation precedence (C10, DESIGN.md App. A.6) ---------------------------------
-\* strategy term:  <<"mark", id, mode>> (mode "both" | "ser" | "deser")   <<"pass_through">>   <<"shift", id, "both", k>> (ints only, lossless)
+\* strategy term:  <<"typed", id, mode>> (as mark, serialize annotated -> int)   <<"mark", id, mode>> (mode "both" | "ser" | "deser")   <<"pass_through">>   <<"shift", id, "both", k>> (ints only, lossless)
 \* a strategy table is a sequence of << keyTerm, strategy >>; keys: a NewType term, an exact type
 \* term, or <<"origin", tag>> for the generic origin of a parametrised type
 Supplies(st, dir) == st[1] = "pass_through" \/ st[3] = "both" \/ st[3] = dir
@@ -231,6 +231,7 @@ Pack(T, cx, v) ==
   LET w == Winner(T, cx, "ser") IN
   IF w = <<"#builtin">> THEN PackB(T, cx, v)
   ELSE IF w[1] = "pass_through" THEN v
+  ELSE IF w[1] = "typed" THEN I(7)           \* <<"typed", id, mode>>: a strategy whose serialize is ANNOTATED "-> int" and returns 7 (what a JSON Schema must then describe)
   ELSE IF w[1] = "shift" THEN (IF v[1] = "int" THEN I(v[2] + w[4]) ELSE v)      \* a LOSSLESS strategy on ints: serialize adds k, deserialize subtracts it
   ELSE S("S" \o w[2])
 
